@@ -400,6 +400,10 @@ def run(ctx: Ctx) -> None:
     n12 = kinds_not_confused(ctx, "C14.R12", ("dds.introspect", "dds._introspect_indirect", "dds._retrieve_objects", "dds._eval_ctx"),
                              "two accepted modules that both read a variable named alike (LIMIT): the second one reuses the hash of the first, editing it changes no signature and the stale result is served")
     rep.floor("C14.R12", n12, 3)
+    from .c01 import tracked_type_table
+    rep.rule("C14.R13", "as C01.R4: every plain type the value hasher supports is tracked by value when it is the type of a variable of an accepted module, and each "
+                        "structural option (accept_list / accept_dict) governs its own types only")
+    tracked_type_table(ctx, "C14.R13")
 
     # ---- R7 / R8: the boundary is decided from the accepted set and the program alone -----------------------------
     from .c02 import process_reads, RESOLVER_MODULES
